@@ -288,6 +288,9 @@ def jobs(tier, seed):
             if q and (op, via) not in (("sum", "method"), ("any", "reduce")):
                 continue
             out.append(dict(base, op=op, via=via, pre=pre, R=3, L=2 if q else 3))
+        out.append(dict(base, op="sum", via="none", pre=pre, R=3, L=2))
+        if pre in ("rowrev", "rowlist"):
+            out.append(dict(base, op="max", via="none", pre=pre, R=3, L=2, Rmin=1))
     out.append(dict(base, op="sum", via="npnone"))
     for via in ("method", "np", "none"):
         out.append(dict(base, op="mean", via=via, Rmin=1, R=3))
